@@ -43,6 +43,12 @@ def sched_specs(draw, quiet=True, adaptive=False, force_last=False,
             return round(k * unit, precision)
         ks = st.integers(1, 40 if precision == 1 else 300)
     nprocs = draw(st.integers(0 if empty_ok else 1, max_procs))
+    # quiet-heavy cases: several processes with condition scripts and short,
+    # mostly un-forced calls (several processes are quiet in one pass that
+    # ends without an event, and wake up in a later call)
+    heavy = bool(quiet) and draw(st.integers(0, 4)) == 0
+    if heavy:
+        nprocs = max(nprocs, min(3, max_procs))
     procs = []
     for i in range(nprocs):
         if adaptive and draw(st.booleans()):
@@ -57,7 +63,7 @@ def sched_specs(draw, quiet=True, adaptive=False, force_last=False,
             ts = [tval(draw(ks))]
             mode = 'invocation'
         cond = None
-        if quiet and draw(st.integers(0, 2)) == 0:
+        if quiet and (draw(st.integers(0, 2)) == 0 or (heavy and i > 0)):
             n = draw(st.integers(1, 8))
             cond = [draw(st.integers(0, 9)) >= 4 for _ in range(n)]
             if not all_quiet_ok or draw(st.integers(0, 3)) > 0:
@@ -77,11 +83,16 @@ def sched_specs(draw, quiet=True, adaptive=False, force_last=False,
             all(p['cond'] is not None for p in procs):
         procs[0]['cond'] = None         # C01: never everybody quiet forever
     ncalls = draw(st.integers(1, 8 if big else 5))
+    if heavy:
+        ncalls = max(ncalls, 3)
     calls = []
     for j in range(ncalls):
         interval = tval(draw(st.integers(1, 32 if precision is None else
                                          (60 if precision == 1 else 400))))
         op = draw(st.sampled_from(['run_for', 'run_for', 'update']))
+        if heavy and j < ncalls - 1:
+            op = 'run_for'
+            interval = tval(draw(st.integers(1, 6)))
         force = True if op == 'update' else draw(st.integers(0, 3)) == 0
         calls.append({'op': op, 'interval': interval, 'force': force})
     if force_last:
